@@ -356,12 +356,14 @@ def str_parts(I, st, v):
     return None
 
 
-def norm_parts(st, parts):
+def norm_parts(st, parts, depth=0):
+    if depth > 40:
+        raise Undecided("string shape refined too deeply (unbounded unrolling of an arbitrary string?)")
     out = []
     strs = mget(st, "strs")
     for p in parts:
         if p[0] == "any" and strs.get(p[1]) is not None:
-            out.extend(norm_parts(st, strs[p[1]]))
+            out.extend(norm_parts(st, strs[p[1]], depth + 1))
         elif p[0] == "lit" and not p[1]:
             continue
         else:
@@ -1191,7 +1193,28 @@ def m_str_ends_with(I, st, args, c, dest, target, span):
             rest = parts[1:] if starts else parts[:-1]
             return m_str_ends_with(I, st, [mk_str(rest), args[1]], c, dest, target, span)
         return VBool(False)
-    fork_any(I, st, p[1])
+    if starts:
+        fork_any(I, st, p[1])
+    fork_any_suffix(I, st, p[1])
+
+
+def fork_any_suffix(I, st, aid):
+    """Decide how an arbitrary string ends: empty | ... line break | ... text (non-empty, without a line break)."""
+    def empty(s):
+        mset(s, "strs", aid, ())
+
+    def ends_nl(s):
+        r = fresh(s, "r")
+        s.bounds[("slen", "any:" + r)] = (0, BIG)
+        mset(s, "strs", aid, (("any", r), ("nl",)))
+
+    def ends_text(s):
+        r = fresh(s, "r")
+        s.bounds[("slen", "any:" + r)] = (0, BIG)
+        t = fresh(s, "t")
+        s.bounds[("slen", t)] = (1, BIG)
+        mset(s, "strs", aid, (("any", r), ("txt", t, 1)))
+    raise Fork([("%s is empty" % aid, empty), ("%s ends with a line break" % aid, ends_nl), ("%s ends with text" % aid, ends_text)], "how string %s ends" % aid)
 
 
 wrap(["core::str::<impl str>::ends_with", "core::str::<impl str>::starts_with"], m_str_ends_with)
@@ -1216,10 +1239,13 @@ def m_sink_write_char(I, st, args, c, dest, target, span):
     if not st.meta.get("pp"):
         return NotImplemented
     ch = I.force(st, args[1])
-    if not (isinstance(ch, VInt) and ch.t.is_const()):
-        raise Undecided("write_char of %r" % (ch,))
-    emit(I, st, [("lit", chr(ch.t.c))])
-    return ok(UNIT)
+    if isinstance(ch, VInt) and ch.t.is_const():
+        emit(I, st, [("lit", chr(ch.t.c))])
+        return ok(UNIT)
+    if isinstance(ch, VInt) and ch.t.sym is not None and ch.t.k == 1 and ch.t.c == 0 and ch.t.sym[0] == "ch":
+        emit(I, st, [("chr", ch.t.sym[1] if len(ch.t.sym) > 1 else "c")])
+        return ok(UNIT)
+    raise Undecided("write_char of %r" % (ch,))
 
 
 wrap(["<core::fmt::Formatter<'_> as core::fmt::Write>::write_char", "core::fmt::Formatter::<'a>::write_char"], m_sink_write_char)
